@@ -1979,7 +1979,8 @@ struct Gen {
         if (!rec.empty()) {
             const auto &v = audio::recording(rec);
             // mostly the utterance from its beginning (so that it can match a grammar), sometimes cut in mid-word
-            int64_t n = std::min<int64_t>((int64_t)v.size(), maxn);
+            // (a budget beyond 3 s means: play the recording twice in a row, the channel wraps around)
+            int64_t n = std::min<int64_t>((int64_t)v.size() * (maxn > 50000 ? 2 : 1), maxn);
             if (r.chance(0.6)) {
                 sig.set("off", 0);
                 sig.set("n", (long long)(r.chance(0.6) ? n : r.range(n / 4, n)));
@@ -2343,7 +2344,9 @@ struct DecWorld : World {
                     // the probe: canonical schedule, decoded twice
                     bool newg = r.chance(0.7);
                     size_t before = gd.ops.a.size();
-                    gd.utterance(d, ts[(size_t)d], newg || hist == 0, true, true, full_class, MAX_CMP_SAMPLES, 0.0, false, !full_class);
+                    // (three probes in ten are long enough for the live normalisation window to shift inside them: the same
+                    // calls are made in the reference, so C07's length restriction does not apply here)
+                    gd.utterance(d, ts[(size_t)d], newg || hist == 0, true, true, full_class, r.chance(0.3) ? 100000 : MAX_CMP_SAMPLES, 0.0, false, !full_class);
                     // second decode of the same utterance: copy begin..end
                     std::vector<Json> again;
                     for (size_t i = before; i < gd.ops.a.size(); ++i) {
